@@ -1766,6 +1766,73 @@ def c05_removed_addr_key(ctx):
     return q.result()
 
 
+def c18_intf_removed_purges_both(ctx):
+    q = Q("c18_intf_removed_purges_both", ["Zeroconf::del_interface_addr (which cached addresses are dropped when an interface address goes away)", "IpType::{V4,V6,BOTH}"],
+          "every explored path of del_interface_addr; the IP-family operand of DnsCache::remove_addrs_on_disabled_intf as a u8 bit set",
+          ["calls are opaque; the family operand is evaluated from the IpType constants", "which call happens on which path is decided"])
+    f = ctx.funcs[ctx.fn("::del_interface_addr")]
+    ex = Explorer(ctx.funcs, ctx.consts, max_paths=3000)
+    paths = ex.explore(f.name)
+    if ex.cut_paths:
+        q.unknown.append("path budget exhausted in del_interface_addr")
+    n_gone = n_part = 0
+    for i, p in enumerate(paths):
+        if p.outcome != "return":
+            continue
+        calls = [e for e in p.events if e[0] == "call"]
+        gone = any(e[1].endswith("HashMap::<u32, MyIntf>::remove") for e in calls)
+        purge = [e for e in calls if e[1].endswith("remove_addrs_on_disabled_intf")]
+        fam = None
+        if purge and len(purge[0][2]) >= 3:
+            a = purge[0][2][2]
+            fam = a.items[0] if isinstance(a, (Adt, Tup)) and a.items and isinstance(a.items[0], BV) else None
+        if gone:
+            n_gone += 1
+            if not purge:
+                q.fail.append(("an interface is removed but the addresses learned on it stay in the cache", f"path {i}"))
+            elif fam is None:
+                q.unknown.append(f"path {i}: IP-family operand not resolved")
+            else:
+                q.valid(p.cond, fam.e == 3, f"path {i}: when the interface itself is removed, addresses of BOTH families learned on it are dropped", fam.taint)
+                if n_gone == 1:
+                    q.witness(p.cond, f"path {i}: interface removed")
+        elif purge:
+            n_part += 1
+            if fam is None:
+                q.unknown.append(f"path {i}: IP-family operand not resolved")
+            else:
+                q.valid(p.cond, z3.Or(fam.e == 1, fam.e == 2), f"path {i}: while the interface stays, only the family that lost its last address is dropped", fam.taint)
+    if n_gone == 0 or n_part == 0:
+        q.unknown.append(f"expected paths removing the interface and paths dropping one family (found {n_gone}/{n_part})")
+    return q.result()
+
+
+def c18_deleted_before_added(ctx):
+    q = Q("c18_deleted_before_added", ["Zeroconf::check_ip_changes (window: from the return of apply_intf_selections to the end of the function)"],
+          "every path from the point where newly found addresses have been added to the end of check_ip_changes; all calls opaque",
+          ["window slice", "calls are opaque; which call happens on which path is decided"])
+    f = ctx.funcs[ctx.fn("::check_ip_changes")]
+    blk = _block_after_call(f, r"apply_intf_selections$")
+    has_del = any(re.search(r"= (?:\w+::)*Zeroconf::del_ip\(", t) for _, t in f.blocks.values())
+    if blk is None or not has_del:
+        q.unknown.append("anchor not found: check_ip_changes calls both del_ip (vanished addresses) and apply_intf_selections (new addresses)")
+        return q.result()
+    ex = Explorer(ctx.funcs, ctx.consts, max_paths=2000)
+    paths = ex.explore(f.name, start_block=blk[0])
+    if ex.cut_paths:
+        q.unknown.append("path budget exhausted after apply_intf_selections")
+    done = [p for p in paths if p.outcome == "return" or p.outcome.startswith("cut:loop")]
+    if not done:
+        q.unknown.append("no path from apply_intf_selections to the end of check_ip_changes")
+    for i, p in enumerate(done):
+        if any(e[0] == "call" and e[1].endswith("::del_ip") for e in p.events):
+            q.fail.append(("addresses that vanished are withdrawn from the services AFTER the new addresses were added: an address that moved to another interface (or changed its prefix) within one check is added and then deleted",
+                           f"path {i}"))
+            break
+    q.nontrivial += 1
+    return q.result()
+
+
 def c18_affected_host_lowercase(ctx):
     q = Q("c18_affected_host_lowercase", ["DnsCache::remove_records_on_intf (mapping hosts that lost addresses back to instances)"],
           "every explored path of remove_records_on_intf that looks an SRV target up in the set of affected hosts", ["calls are opaque; value provenance only"])
@@ -1976,6 +2043,104 @@ def c08_rename_by_record_kind(ctx):
         q.nontrivial += len(kinds)
     else:
         q.unknown.append("no renaming path")
+    return q.result()
+
+
+def c06_answer_only_when_announced(ctx):
+    q = Q("c06_answer_only_when_announced", ["Zeroconf::handle_query (windows: one pass of each loop over my_services, and the instance-name branch)"],
+          "every path from a service being picked to the next service / question; the service's status on the interface: any variant",
+          ["window slices", "name matching, address selection and the answer builders are opaque", "get_status is a pure accessor of the service"])
+    f = ctx.funcs[ctx.fn("::handle_query")]
+    wins = []
+    for b, (stmts, t) in f.blocks.items():
+        m = re.match(r"(_\d+) = <std::collections::hash_map::Values<'_, String, ServiceInfo> as Iterator>::next\(", t)
+        if m:
+            for b2, (st2, t2) in f.blocks.items():
+                if any(re.search(r"\(\(%s as Some\)\.0" % m.group(1), x) for x in st2):
+                    wins.append((b2, {m.group(1): Adt("Some", [Ref(("service", len(wins)), (), mutable=False)])}, "Values<'_, String, ServiceInfo> as Iterator>::next", f"services loop at {b}"))
+        if re.search(r"= Option::<\(&String, &ServiceInfo\)>::map::<&ServiceInfo", t):
+            rb = re.search(r"return: (bb\d+)", t)
+            if rb:
+                wins.append((rb.group(1), None, "Iter<'_, DnsQuestion> as Iterator>::next", f"instance-name branch after {b}"))
+    if len(wins) < 3:
+        q.unknown.append(f"expected the two loops over my_services and the instance-name branch in handle_query (found {len(wins)} windows)")
+    from mirslice import ENUM_IDS
+    for start, loc, stop, tag in wins:
+        ex = Explorer(ctx.funcs, ctx.consts, stop_calls=(stop,), pure_accessors={"get_status"}, max_paths=3000)
+        ex.enum_accessors = {"get_status"}
+        paths = ex.explore(f.name, start_block=start, locals_=loc)
+        if ex.cut_paths:
+            q.unknown.append(f"{tag}: path budget exhausted")
+        ann = z3.BitVecVal(ENUM_IDS.setdefault("ServiceStatus::Announced", len(ENUM_IDS) + 1), 16)
+        n_ans = 0
+        for i, p in enumerate(paths):
+            if not (p.outcome.startswith("stop:") or p.outcome == "return" or p.outcome.startswith("cut:loop")):
+                continue
+            adds = [e for e in p.events if e[0] == "call" and re.search(r"(DnsOutgoing::add_answer\w*|add_answer_of_service)$", e[1])]
+            if not adds:
+                continue
+            n_ans += 1
+            st_ = [v for k, v in p.acc.items() if k[0] == "get_status"]
+            if not st_:
+                q.fail.append(("an answer about a registered service is added without looking at its status on the receiving interface (services still probing, or without an address on that link, are answered for)",
+                               f"{tag}: path {i}: {adds[0][1].split('::')[-1]} at {adds[0][3]}"))
+                continue
+            q.valid(p.cond, z3.Or(*[v.e == ann for v in st_]), f"{tag}: path {i}: an answer is only added for a service whose status on this interface is Announced", allow_havoc=True)
+            if n_ans == 1:
+                q.witness(p.cond, f"{tag}: path {i}")
+        if n_ans == 0:
+            q.unknown.append(f"{tag}: no path adds an answer")
+    q.fail = q.fail[:6]
+    return q.result()
+
+
+def c06_additionals_use_resolved_names(ctx):
+    q = Q("c06_additionals_use_resolved_names", ["DnsOutgoing::add_answer_with_additionals (which name each record of a PTR answer is built with)"],
+          "every explored path of add_answer_with_additionals (first pass of the address loop); all calls opaque",
+          ["calls are opaque; value provenance only: which call produced the name handed to each record constructor"])
+    f = ctx.funcs[ctx.fn("::add_answer_with_additionals")]
+    ex = Explorer(ctx.funcs, ctx.consts, max_paths=3000)
+    paths = ex.explore(f.name)
+    if ex.cut_paths:
+        q.unknown.append("path budget exhausted in add_answer_with_additionals")
+
+    def resolved(p, v, depth=0):
+        """v was returned by DnsRegistry::resolve_name, or is a to_string()/to_owned()/clone() of such a value"""
+        prod = _producer(p, v)
+        if prod is None and isinstance(v, Ref):
+            dv = _deref_val(p, v)
+            prod = _producer(p, dv) if dv is not None else None
+        if prod is None:
+            return False
+        if prod[1].endswith("resolve_name"):
+            return True
+        if depth < 3 and prod[1].split("::")[-1] in ("to_string", "to_owned", "clone", "into", "from") and prod[2]:
+            return resolved(p, prod[2][0], depth + 1)
+        return False
+    seen = {}
+    for i, p in enumerate(paths):
+        if not (p.outcome == "return" or p.outcome.startswith("cut:loop")):
+            continue
+        for e in p.events:
+            if e[0] != "call":
+                continue
+            short = "::".join(e[1].split("::")[-2:])
+            which = {"DnsSrv::new": (0, "SRV owner"), "DnsTxt::new": (0, "TXT owner"), "DnsAddress::new": (0, "address owner"),
+                     "DnsPointer::new": (4, "PTR target")}.get(short)
+            if which is None or len(e[2]) <= which[0]:
+                continue
+            ok = resolved(p, e[2][which[0]])
+            seen[which[1]] = seen.get(which[1], 0) + 1
+            if not ok:
+                q.fail.append((f"the {which[1]} name of a PTR answer is not the name the registry resolved (after a conflict rename the record still carries the abandoned name)",
+                               f"path {i}: {short} at {e[3]}"))
+            if short == "DnsSrv::new" and len(e[2]) > 6 and not resolved(p, e[2][6]):
+                q.fail.append(("the SRV target host of a PTR answer is not the host name the registry resolved", f"path {i}: {short} at {e[3]}"))
+    for need in ("SRV owner", "TXT owner", "address owner", "PTR target"):
+        if not seen.get(need):
+            q.unknown.append(f"no explored path builds the {need} record")
+    q.fail = q.fail[:6]
+    q.nontrivial += len(seen)
     return q.result()
 
 
@@ -2337,11 +2502,12 @@ SPECS = {
     "C11": [c11_new_lifetime, c11_predicates, c11_refresh_schedule, c11_reset_restarts, c11_cache_flush_rule, c11_addr_lookup_lowercase, c11_hostname_refresh_guard],
     "C10": [c10_update_ttl, c10_known_answer_filter, c10_suppressed_ptr_no_additionals],
     "C05": [c05_reset_restores, c05_verify_deadline, c05_verify_shortens_only, c05_evict_predicate, c05_removed_addr_key, c11_cache_flush_rule],
-    "C18": [c18_affected_host_lowercase, c11_cache_flush_rule],
+    "C18": [c18_affected_host_lowercase, c11_cache_flush_rule, c18_intf_removed_purges_both, c18_deleted_before_added],
     "C07": [c07_probe_clock, c07_reannounce_delay, c07_check_probing_paths, c07_resend_lookup_key],
     "C12": [c12_poll_timeout, c12_ipcheck_rearm, c12_hostname_timeout_timer, c12_hostname_timeout_due, c12_response_record_timers, c12_rerun_has_timer, c12_probe_timers, c12_conflict_probe_timer, c12_tiebreak_retry_timer, c11_cache_flush_rule, c05_verify_deadline, c07_check_probing_paths],
     "C19": [c19_browse_backoff, c19_hostname_backoff, c19_resolve_retry, c19_initial_delay, c19_rerun_due, c19_browse_listener_gone],
-    "C08": [c08_tiebreak_count_operands, c08_rename_by_record_kind, c08_answer_uses_resolved_host],
+    "C08": [c08_tiebreak_count_operands, c08_rename_by_record_kind, c08_answer_uses_resolved_host, c06_additionals_use_resolved_names],
+    "C06": [c06_additionals_use_resolved_names, c06_answer_only_when_announced],
     "C16": [c16_decode_txt_step, c16_first_key_wins],
     "C01": [c01_name_cap_operand],
     "C15": [c01_name_cap_operand, c16_decode_txt_step],
